@@ -91,7 +91,13 @@ func Start(o Options) (*Stack, error) {
 	}
 	s := &Stack{LS: ls, GrpcAddr: g, RestAddr: r}
 	// the closer order of cmd/server/main.go
-	s.closers = []func(){ls.PrepareShutdown, netClose, lsClose}
+	prepare := func() {
+		// cmd/server/main.go calls PrepareShutdown first; older trees do not have it
+		if p, ok := any(ls).(interface{ PrepareShutdown() }); ok {
+			p.PrepareShutdown()
+		}
+	}
+	s.closers = []func(){prepare, netClose, lsClose}
 	for _, a := range []string{g, r} {
 		ok := false
 		for i := 0; i < 200; i++ {
